@@ -80,8 +80,8 @@ DIRECTED = [
 
 def run(ctx):
     cfgs = list(L.CFGS_QUICK) + (list(L.CFGS_MORE) if ctx.thorough else [(5, 2, False)])
-    jobs = jobs_for(ctx, ctx.scale(9, 90), cfgs[:3], ctx.scale(4, 6))
-    jobs += jobs_for(ctx, ctx.scale(3, 40), cfgs[3:], ctx.scale(4, 6), tag='q')
+    jobs = jobs_for(ctx, ctx.scale(7, 90), cfgs[:3], ctx.scale(4, 6))
+    jobs += jobs_for(ctx, ctx.scale(2, 40), cfgs[3:], ctx.scale(4, 6), tag='q')
     for di, prog in enumerate(DIRECTED):
         for ci, cfg in enumerate(cfgs[:3]):
             for li, lf in enumerate(L.TYPES):
